@@ -1,10 +1,10 @@
 #!/usr/bin/env bash
-# seedverify.sh <ID> : independent confirmation, in the scratch worktree
+# seedverify.sh <ID> [worktree] [dest name] : independent confirmation, in the scratch worktree
 # /tmp/seed-<ID>, that the seeded change compiles, leaves the existing suite
 # unchanged, and that its demonstration fails with it and passes without it.
 # Then stores patch + demo + meta under /verif/seeded/<ID>/.
 set -u
-ID="$1"; W="/tmp/seed-$ID"; S="$W/SEED"
+ID="$1"; W="${2:-/tmp/seed-$ID}"; S="$W/SEED"; DEST="${3:-$ID}"
 export GOPROXY=off GOFLAGS=-mod=mod
 cd "$W" || exit 2
 demo=$(python3 -c "import json;print(json.load(open('$S/meta.json'))['demo_cmd'])")
@@ -31,8 +31,8 @@ known='TestWorkManagerProgressTimeoutFailuresDontReset|TestHandleHeaders|TestNeu
 newfails=$(grep '^--- FAIL' /tmp/seedverify-$ID-suite.log | grep -Ev "$known" | wc -l)
 echo "demo_with_rc=$rcw demo_without_rc=$rco suite_fail_lines=$fails new_failures=$newfails"
 if [ $rcw -ne 0 ] && [ $rco -eq 0 ] && [ $newfails -eq 0 ]; then
-  mkdir -p /verif/seeded/$ID && cp "$S/patch.diff" "$S/meta.json" /verif/seeded/$ID/ && cp "$S"/demo* /verif/seeded/$ID/ 2>/dev/null
-  echo "CONFIRMED $ID -> /verif/seeded/$ID"
+  mkdir -p /verif/seeded/$DEST && cp "$S/patch.diff" "$S/meta.json" /verif/seeded/$DEST/ && cp "$S"/demo* /verif/seeded/$DEST/ 2>/dev/null
+  echo "CONFIRMED $ID -> /verif/seeded/$DEST"
 else
   echo "NOT CONFIRMED $ID"
 fi
